@@ -21,9 +21,10 @@ def _m(name):
 
 
 class T:
-    def __init__(self, name, shape, dtype="int8", scales=None, zps=None, qdim=0, data=None, variable=False):
+    def __init__(self, name, shape, dtype="int8", scales=None, zps=None, qdim=0, data=None, variable=False, qmin=None, qmax=None):
         self.name, self.shape, self.dtype = name, list(shape), dtype
         self.scales, self.zps, self.qdim, self.data, self.variable = scales, zps, qdim, data, variable
+        self.qmin, self.qmax = qmin, qmax        # optional QuantizationParameters.min / .max (lists of floats)
 
 
 class Op:
@@ -94,12 +95,22 @@ def serialize(net):
         name = b.CreateString(t.name)
         shape = _vec(b, 4, t.shape, b.PrependInt32)
         q = None
-        if t.scales is not None:
-            sc = _vec(b, 4, [float(x) for x in t.scales], b.PrependFloat32)
-            zp = _vec(b, 8, [int(x) for x in (t.zps if t.zps is not None else [0] * len(t.scales))], b.PrependInt64)
+        qmin, qmax = getattr(t, "qmin", None), getattr(t, "qmax", None)
+        if t.scales is not None or qmin is not None or qmax is not None:
+            mn = _vec(b, 4, [float(x) for x in qmin], b.PrependFloat32) if qmin is not None else None
+            mx = _vec(b, 4, [float(x) for x in qmax], b.PrependFloat32) if qmax is not None else None
+            sc = zp = None
+            if t.scales is not None:
+                sc = _vec(b, 4, [float(x) for x in t.scales], b.PrependFloat32)
+                zp = _vec(b, 8, [int(x) for x in (t.zps if t.zps is not None else [0] * len(t.scales))], b.PrependInt64)
             QP.Start(b)
-            QP.AddScale(b, sc)
-            QP.AddZeroPoint(b, zp)
+            if mn is not None:
+                QP.AddMin(b, mn)
+            if mx is not None:
+                QP.AddMax(b, mx)
+            if sc is not None:
+                QP.AddScale(b, sc)
+                QP.AddZeroPoint(b, zp)
             QP.AddQuantizedDimension(b, t.qdim)
             q = QP.End(b)
         Tensor.Start(b)
